@@ -63,11 +63,11 @@ func (ls *lockSpec) access(w *World, in ssa.Instruction) (kind int, desc string,
 			case *ssa.FieldAddr:
 				name, n := fieldName(x)
 				if sameNamed(n, ls.named) && (ls.guarded[name] || ls.atomicW[name]) {
-					return n.Obj().Name() + "." + name, true
+					return pinnedShortName(n) + "." + name, true
 				}
 				for _, d := range ls.deep {
 					if sameNamed(n, d) {
-						return d.Obj().Name() + "." + name, true
+						return pinnedShortName(d) + "." + name, true
 					}
 				}
 				return "", false
@@ -259,7 +259,7 @@ func (w *World) lockset(ls *lockSpec) *lockResult {
 						once("write:"+field, "guarded state is written under the write lock", n, "write of "+d+" without holding the write lock: data race / lost update")
 					}
 					if k == 2 && !at {
-						if name := strings.TrimPrefix(d, ls.named.Obj().Name()+"."); ls.atomicW[name] {
+						if name := strings.TrimPrefix(d, pinnedShortName(ls.named)+"."); ls.atomicW[name] {
 							once("plain-write:"+field, "atomically read field is written atomically", n, "plain write of "+d+" which is read lock-free with sync/atomic")
 						}
 					}
@@ -325,7 +325,7 @@ func (ls *lockSpec) isFresh(in ssa.Instruction) bool {
 
 func (w *World) exportLock(r *Report, rule string, ls *lockSpec, site string) {
 	res := w.lockset(ls)
-	name := ls.named.Obj().Name()
+	name := pinnedShortName(ls.named)
 	if res.accesses == 0 {
 		r.Unknown(rule, name+":lockset", "guarded accesses exist", site, "no access to the guarded fields found")
 		return
